@@ -733,6 +733,42 @@ fn main() {
             got.line_output(port, &delta.to_string(), if followup { "1" } else { "0" })
         ));
     }
+    // a request that is refused for its path or query is refused at once: the client may still
+    // be sending its body (here: the last bytes never come, the connection stays open)
+    {
+        let body = br#"{"nonce":"pending","seq":7}"#;
+        let mut pending: Vec<Req> = Vec::new();
+        for target in ["/all/n1?q=x&k=notanumber", "/all/n1?k=5", "/all/n1?q=x&q=y", "/all/n1?q=x&k=4294967296"] {
+            for framing in [Framing::Cl, Framing::Ch { splits: vec![9], exts: vec![], last_ext: vec![], trailers: vec![] }] {
+                let mut r = req("all", "POST", target.as_bytes(), Some(b"application/json"), framing, body);
+                r.meta = "pending-body".into();
+                pending.push(r);
+            }
+        }
+        for rq in &pending {
+            let before = ctx.count(rq.ep);
+            let wire = rq.wire();
+            let mut got = digest(None);
+            let mut port = 0;
+            if let Ok(mut s) = connect_long(addr) {
+                port = s.local_addr().map(|a| a.port()).unwrap_or(0);
+                let _ = s.set_read_timeout(Some(std::time::Duration::from_secs(8)));
+                // everything but the last seven bytes of the body
+                if s.write_all(&wire[..wire.len() - 7]).is_ok() {
+                    let mut rr = RespReader::new(s.try_clone().expect("clone"));
+                    got = digest(rr.read_response(false));
+                }
+            }
+            let delta = ctx.count(rq.ep) - before;
+            let fresh_ok = single(addr, &get("p3", "/path/1/f/true")).resp.map(|r| r.status == 200).unwrap_or(false);
+            id += 1;
+            out.line(&format!(
+                "{} => {}",
+                rq.line_input("bad", id),
+                got.line_output(port, &delta.to_string(), if fresh_ok { "1" } else { "0" })
+            ));
+        }
+    }
     // the same refusals over HTTP/2: every tenth case an HTTP/2 client can express, one request
     // per connection so that handler entries are attributed exactly (no follow-up: field `1`)
     let h2_cases: Vec<&Req> = list.iter().filter(|r| h2_expressible(r)).step_by(10).collect();
